@@ -411,6 +411,8 @@ def run(ctx):
     give_up_values_rule(ctx, 'C04.h')
     control_values_are_ints_rule(ctx, 'C04.i')
     wrapper_shape_rule(ctx, 'C04.j')
+    extract_phase_rule(ctx, 'C04.k')
+    ctx.decided.append('C04.k _extract_phase drops the global phase operation only when the phase is 1 (interpreted on a grid of shifts and exponents)')
     ctx.decided.append('C04.j gate wrappers that size themselves from the wrapped gate also take their qid shape from it')
     ctx.decided.append('C04.i the constructors of the control-value classes store plain ints (the stored values are used as numpy indices, where a bool is a mask)')
     ctx.decided.append('C04.h protocol functions exclude both documented give-up values (None and NotImplemented) of _unitary_/_mixture_/_apply_unitary_ before using a result')
@@ -729,3 +731,83 @@ def wrapper_shape_rule(ctx, rid='C04.j'):
                ': a wrapped qudit gate is reported with qubit dimensions', ci.mod.rel, (qs or ci.node).lineno)
     if n == 0:
         raise AnalysisError('no gate wrapper found')
+
+
+# ---------------------------------------------------------------------------------------------------------------------
+# C04.k  _extract_phase splits an eigen-gate with a global shift into the bare gate and a global phase operation; the phase
+# operation may be left out only when the phase is 1.  Interpreted on a grid of (shift, exponent), the helper functions of
+# global_phase_op followed (from_phase_and_exponent, GlobalPhaseGate.is_identity modelled by its documented meaning).
+def extract_phase_rule(ctx, rid='C04.k'):
+    repo = ctx.repo
+    m = repo.module('cirq-core/cirq/ops/common_gates.py')
+    fn = m.defs.get('_extract_phase')
+    ctx.rule(rid, 'phase extraction keeps the phase: _extract_phase(gate, ...) returns the bare gate alone exactly when exp(i pi shift exponent) == 1 and the bare gate followed by a global '
+             'phase operation of that value otherwise (grid of shifts and exponents, incl. products that are odd integers: rx(2 pi) is -I, a Z on the control once controlled)',
+             floor=20, style='FDX')
+    if not isinstance(fn, ast.FunctionDef):
+        raise AnalysisError('common_gates._extract_phase vanished')
+    params = [a.arg for a in fn.args.args]
+
+    class Phase:
+        def __init__(self, c):
+            self.coefficient = self._coefficient = complex(c)
+
+        def is_identity(self):
+            return bool(np.isclose(self.coefficient, 1))
+
+        def __call__(self, *a):
+            return ('phase', self.coefficient)
+
+        def on(self, *a):
+            return ('phase', self.coefficient)
+
+    class Bare:
+        def __init__(self, **kw):
+            self.kw = kw
+
+        def on(self, *q):
+            return ('bare', self.kw.get('exponent'), q)
+
+    def call_hook(call, it):
+        s = ast.unparse(call.func)
+        if s.split('.')[-1] == 'GlobalPhaseGate':
+            return Phase(it.ev(call.args[0]))
+        if s.endswith('is_parameterized'):
+            return False
+        if s == 'isinstance':
+            a0 = it.ev(call.args[0])
+            if isinstance(a0, dict) and 'global_shift' in a0:
+                return False     # the model gate is not a qudit X / Z
+            if ast.unparse(call.args[1]).endswith('sympy.Expr'):
+                return False
+        return NotImplemented
+    k = 0
+    for shift in (-0.5, 0.5, 0.25, 1.0, -1.0, 2.0 / 3.0, 0.3):
+        for e in (0.0, 1.0, 2.0, 3.0, 4.0, -2.0, 0.5, 1.5, 6.0, 0.7):
+            gate = {'global_shift': shift, '_global_shift': shift, 'exponent': e, '_exponent': e, 'dimension': 2}
+            env = {params[0]: gate, params[1]: (lambda **kw: Bare(**kw)), params[2]: ('q0',), params[3]: {'extract_global_phases': True}}
+            def attr_hook(node, it_):
+                try:
+                    v = it_.ev(node.value)
+                except fdx.Unsupported:
+                    return NotImplemented
+                if isinstance(v, (Phase, Bare)) and hasattr(v, node.attr):
+                    return getattr(v, node.attr)
+                return NotImplemented
+            it = fdx.NumInterp(env, call_hook=call_hook, attr_hook=attr_hook)
+            it.builtins.update({'complex': complex})
+            try:
+                got = it.call(fn)
+            except (fdx.Unsupported, fdx.Raised) as ex:
+                raise AnalysisError(f'cannot interpret _extract_phase: {ex}')
+            want_phase = np.exp(1j * np.pi * shift * e)
+            trivial = bool(np.isclose(want_phase, 1))
+            bad = None
+            if not isinstance(got, list) or not got or got[0][0] != 'bare' or got[0][1] != e:
+                bad = f'returns {got}: the first operation is not the bare gate with the same exponent'
+            elif trivial and len(got) != 1:
+                bad = f'adds {got[1:]} although the phase is 1'
+            elif not trivial and (len(got) != 2 or got[1][0] != 'phase' or not np.isclose(got[1][1], want_phase)):
+                bad = f'returns {got[1:] or "no phase operation"}: the global phase exp(i pi {shift} * {e}) = {want_phase:.4g} is lost or wrong'
+            k += 1
+            ctx.ob(rid, f'cirq.ops.common_gates._extract_phase:shift={shift:.4g}:exponent={e:g}', bad is None, bad or '', m.rel, fn.lineno)
